@@ -64,7 +64,8 @@ func (p *Prog) JS() string {
 			sb.WriteString("Object.keys(b).forEach(function(k) { delete b[k]; });\n")
 		case "gcount":
 			// state kept on a built-in: visible to a later execution only if runtimes are shared
-			sb.WriteString(fmt.Sprintf("Math.vc = (Math.vc || 0) + 1; b[%s] = Math.vc;\n", jsText(op.K)))
+			// (counted once per execution: the flag lives in the per-execution environment object)
+			sb.WriteString(fmt.Sprintf("if (!_.vcDone) { Math.vc = (Math.vc || 0) + 1; _.vcDone = true; } b[%s] = Math.vc;\n", jsText(op.K)))
 		case "poke":
 			sb.WriteString(fmt.Sprintf("(function(v){ if (Array.isArray(v)) { if (v.length > 0 && v[0] !== null && typeof v[0] === 'object' && !Array.isArray(v[0])) { v[0].poked = 1; } else if (v.length > 0) { v[0] = 1; } } else if (v !== null && typeof v === 'object') { v.poked = 1; } })(b[%s]);\n", jsText(op.K)))
 		}
